@@ -12,10 +12,11 @@ from common import Report, Sandbox, run_cicada, crashed
 
 OPS = [";", "&&", "||"]
 DECOYS = ["';'", '"&&"', "'||'", "a\\;b", "'#'", '"|"', "\\;", "'a && b'", '"x;y"',
-          '"p\\";q"', '"u \\" && v \\" w"', '"e \\" || f"']
+          '"p\\";q"', '"u \\" && v \\" w"', '"e \\" || f"', "中文", "'日本 ; 語'", '"é && é"', "é"]
 DECOY_VALUES = {"';'": ";", '"&&"': "&&", "'||'": "||", "a\\;b": "a;b", "'#'": "#", '"|"': "|", "\\;": ";",
                 "'a && b'": "a && b", '"x;y"': "x;y",
-                '"p\\";q"': 'p";q', '"u \\" && v \\" w"': 'u " && v " w', '"e \\" || f"': 'e " || f'}
+                '"p\\";q"': 'p";q', '"u \\" && v \\" w"': 'u " && v " w', '"e \\" || f"': 'e " || f',
+                "中文": "中文", "'日本 ; 語'": "日本 ; 語", '"é && é"': "é && é", "é": "é"}
 
 _sb = None
 
